@@ -73,30 +73,12 @@ fn c28_get_list_shape() {
     assert!(v.is_empty() && s.is_none() && !b, "empty map is the empty list");
 }
 
-// ---- K-snippet part (C28): separator / bracket selection of append and
-// join, list.index, zip's length, list.separator.  The Sass functions are
+// ---- K-snippet part (C28): list.index, zip's length, list.separator, and
+// (further down) the complete bodies of join, append and set-nth.  The Sass functions are
 // closures inside `create_module`; the statement ranges below are cut out of
 // /repo's current source on every run (tools/extract.py) and wrapped in
 // functions of their free variables; argument fetches (`s.get…`) are
 // replaced by parameters (listed substitutions). ----
-
-//@range file=rsass/src/sass/functions/list.rs fn=create_module from="let sep = s\n                .get_map(name!(separator), check_separator)?\n                .or(sep1)" until="list1.append(&mut list2);"
-//@  header: fn snippet_join_sep(explicit: Option<ListSeparator>, sep1: Option<ListSeparator>, sep2: Option<ListSeparator>) -> ListSeparator
-//@  subst: s\n                .get_map(name!(separator), check_separator)? => explicit
-//@  tail: sep
-//@end
-
-//@range file=rsass/src/sass/functions/list.rs fn=create_module from="let bra = match s.get(name!(bracketed))? {" until="Ok(Value::List(list1, Some(sep), bra))"
-//@  header: fn snippet_join_bracketed(bracketed: Value, bra1: bool) -> bool
-//@  subst: s.get(name!(bracketed))? => bracketed
-//@  tail: bra
-//@end
-
-//@range file=rsass/src/sass/functions/list.rs fn=create_module from="let sep = s\n            .get_map(name!(separator), check_separator)?\n            .or(sep)" until="list.push(s.get(name!(val))?);"
-//@  header: fn snippet_append_sep(explicit: Option<ListSeparator>, sep: Option<ListSeparator>) -> ListSeparator
-//@  subst: s\n            .get_map(name!(separator), check_separator)? => explicit
-//@  tail: sep
-//@end
 
 //@range file=rsass/src/sass/functions/list.rs fn=create_module from="let len = lists.iter().map(Vec::len).min().unwrap_or(0);" until="let result = (0..len)"
 //@  header: fn snippet_zip_len(lists: &Vec<Vec<u8>>) -> usize
@@ -112,45 +94,6 @@ fn any_sep() -> Option<ListSeparator> {
     }
 }
 
-/// C28: join takes the separator from the explicit argument, else from the
-/// first list that has one, else space.  All 4 x 4 x 4 combinations.
-#[kani::proof]
-fn c28_join_separator_choice() {
-    let (e, s1, s2) = (any_sep(), any_sep(), any_sep());
-    let r = snippet_join_sep(e, s1, s2);
-    let want = match (e, s1, s2) {
-        (Some(x), _, _) => x,
-        (None, Some(x), _) => x,
-        (None, None, Some(x)) => x,
-        (None, None, None) => ListSeparator::Space,
-    };
-    assert!(r == want, "join: explicit separator, else the first list that has one, else space");
-}
-/// C28: append takes the separator from the explicit argument, else from
-/// the list, else space.
-#[kani::proof]
-fn c28_append_separator_choice() {
-    let (e, s1) = (any_sep(), any_sep());
-    let r = snippet_append_sep(e, s1);
-    let want = match (e, s1) {
-        (Some(x), _) => x,
-        (None, Some(x)) => x,
-        (None, None) => ListSeparator::Space,
-    };
-    assert!(r == want, "append: explicit separator, else the list's, else space");
-}
-/// C28: join takes the brackets from the explicit argument (by truthiness),
-/// or from the first list when it is `auto`.
-#[kani::proof]
-#[kani::unwind(6)]
-fn c28_join_bracketed_choice() {
-    let bra1: bool = kani::any();
-    let auto = Value::Literal(crate::css::CssString::new(String::from("auto"), crate::value::Quotes::None));
-    assert!(snippet_join_bracketed(auto, bra1) == bra1, "join: bracketed auto takes the first list's brackets");
-    assert!(snippet_join_bracketed(Value::True, bra1), "join: bracketed true");
-    assert!(!snippet_join_bracketed(Value::False, bra1), "join: bracketed false");
-    assert!(!snippet_join_bracketed(Value::Null, bra1), "join: bracketed null is falsey");
-}
 /// C28: zip truncates to the shortest list (0 lists: length 0).
 #[kani::proof]
 #[kani::unwind(5)]
@@ -248,7 +191,7 @@ fn parts(l: L) -> (Vec<u8>, Option<ListSeparator>, bool) {
     (l.items, l.sep, l.bra)
 }
 
-//@range file=rsass/src/sass/functions/list.rs fn=create_module from="let (mut list1, sep1, bra1) = get_list(s.get(name!(list1))?);" until="\n        }\n    );"
+//@range file=rsass/src/sass/functions/list.rs fn=create_module after="join(list1, list2, separator = b\"auto\", bracketed = b\"auto\"),\n        |s| {" until="\n        }\n    );"
 //@  header: fn snippet_join(list1_arg: L, list2_arg: L, separator_arg: Option<ListSeparator>, bracketed_arg: Value) -> Result<L, ()>
 //@  subst: get_list( => parts(
 //@  subst: Value::List( => L::new(
@@ -258,7 +201,7 @@ fn parts(l: L) -> (Vec<u8>, Option<ListSeparator>, bool) {
 //@  subst: s.get(name!(bracketed))? => bracketed_arg
 //@end
 
-//@range file=rsass/src/sass/functions/list.rs fn=create_module from="let (mut list, sep, bra) = get_list(s.get(name!(list))?);\n        let sep = s" until="\n    });"
+//@range file=rsass/src/sass/functions/list.rs fn=create_module after="def!(f, append(list, val, separator = b\"auto\"), |s| {" until="\n    });"
 //@  header: fn snippet_append(list_arg: L, val_arg: u8, separator_arg: Option<ListSeparator>) -> Result<L, ()>
 //@  subst: get_list( => parts(
 //@  subst: Value::List( => L::new(
@@ -267,7 +210,7 @@ fn parts(l: L) -> (Vec<u8>, Option<ListSeparator>, bool) {
 //@  subst: s.get(name!(val))? => val_arg
 //@end
 
-//@range file=rsass/src/sass/functions/list.rs fn=create_module from="let (mut list, sep, bra) = get_list(s.get(name!(list))?);\n        let i = s.get_map(name!(n)" until="\n    });"
+//@range file=rsass/src/sass/functions/list.rs fn=create_module after="def!(f, set_nth(list, n, value), |s| {" until="\n    });"
 //@  header: fn snippet_set_nth(list_arg: L, n_arg: Value, value_arg: u8) -> Result<L, ()>
 //@  subst: get_list( => parts(
 //@  subst: Value::List( => L::new(
@@ -296,6 +239,16 @@ fn c28_join_concatenates() {
         }
         Err(_) => assert!(false, "join gives a list"),
     }
+}
+/// C28: an explicit $bracketed decides by truthiness, whatever the lists have.
+#[kani::proof]
+#[kani::unwind(6)]
+fn c28_join_bracketed_explicit() {
+    let (b1, b2): (bool, bool) = (kani::any(), kani::any());
+    let l = |b| L::new(vec![1], None, b);
+    assert!(matches!(snippet_join(l(b1), l(b2), None, Value::True), Ok(ref r) if r.bra), "join: $bracketed: true");
+    assert!(matches!(snippet_join(l(b1), l(b2), None, Value::False), Ok(ref r) if !r.bra), "join: $bracketed: false");
+    assert!(matches!(snippet_join(l(b1), l(b2), None, Value::Null), Ok(ref r) if !r.bra), "join: $bracketed: null is falsey");
 }
 #[kani::proof]
 #[kani::unwind(6)]
